@@ -1,7 +1,7 @@
 (* The line protocol: one case line in, one canonical result line out. *)
 From Coq Require Import String.
 From TlsModel Require Export Entries.
-From TlsModel Require Import Consts SpecEntries StatesEntry States Flows NtEntry DefragEntry SerEntry.
+From TlsModel Require Import Consts SpecEntries StatesEntry States Flows NtEntry DefragEntry SerEntry HelloEntry.
 
 Definition all_entries : list (string * entry_fn) := entries_tls ++ entries_ext ++ entries_kx ++ entries_dtls ++ spec_entries_tls.
 
@@ -21,6 +21,8 @@ Fixpoint split_last {A} (l : list A) : list A * option A :=
 Definition run_line (line : list byte) : list byte :=
   match split_on x20 line with
   | name :: rest =>
+      if beq_bytes name (str "@hello") then run_hello_line rest else
+      if beq_bytes name (str "spec.@hello") then spec_hello_line rest else
       if beq_bytes name (str "@ser") then run_ser_line rest else
       if beq_bytes name (str "spec.@ser") then spec_ser_line rest else
       if beq_bytes name (str "defrag") then run_defrag_line DEFRAG_DEBUG_ASSERT rest else
